@@ -501,6 +501,51 @@ func init() {
 			}
 			return out
 		}})
+	// S18: as S6, on an instance that already holds EXPLICIT ids just above the generator's
+	// position (imported records): whatever Add does when the id it drew is taken, every
+	// automatically generated id stays unique across goroutines, instances and node constructors
+	vScenarios = append(vScenarios, &vScenario{Prop: "C11", Name: "ids/S18-auto-ids-next-to-explicit-ids",
+		Body: func(x *vSchedExec) {
+			mk := func() HybridSearchIndex {
+				f, _ := NewFlatIndex(2, Euclidean)
+				return NewHybridSearchIndex(f, nil, nil)
+			}
+			a, b := mk(), mk()
+			next := NewVectorNode([]float32{1}).ID() // the generator's position
+			for i := uint32(1); i <= 3; i++ {
+				if err := a.AddWithID(next+i, []float32{1, float32(i)}, "", nil); err != nil {
+					panic(err)
+				}
+			}
+			x.Spawn("A", func() {
+				x.Op("A", "AutoAdd", func() ([]uint32, error) { id, err := a.Add([]float32{1, 0}, "", nil); return []uint32{id}, err })
+				x.Op("A", "AutoAdd", func() ([]uint32, error) { id, err := a.Add([]float32{1, 0}, "", nil); return []uint32{id}, err })
+			})
+			x.Spawn("B", func() {
+				x.Op("B", "AutoAdd", func() ([]uint32, error) { id, err := b.Add([]float32{0, 1}, "", nil); return []uint32{id}, err })
+				x.Op("B", "AutoAdd", func() ([]uint32, error) { id, err := b.Add([]float32{0, 1}, "", nil); return []uint32{id}, err })
+			})
+			x.Spawn("C", func() {
+				x.Op("C", "NewVectorNode", func() ([]uint32, error) { return []uint32{NewVectorNode([]float32{1}).ID()}, nil })
+				x.Op("C", "NewVectorNode", func() ([]uint32, error) { return []uint32{NewVectorNode([]float32{1}).ID()}, nil })
+			})
+			x.Join()
+		},
+		Judge: func(x *vSchedExec) [][3]string {
+			seen := map[uint32]string{}
+			var out [][3]string
+			for _, e := range x.events {
+				if e.Err != "" {
+					out = append(out, [3]string{"spurious-failure", e.Op, e.Err})
+					continue
+				}
+				if o, dup := seen[e.IDs[0]]; dup || e.IDs[0] == 0 {
+					out = append(out, [3]string{"auto-id-not-unique", "explicit-ids-next-to-the-generator", fmt.Sprintf("id %d returned by %s and %s", e.IDs[0], o, e.Thread+":"+e.Op)})
+				}
+				seen[e.IDs[0]] = e.Thread + ":" + e.Op
+			}
+			return out
+		}})
 	vInitStoreScenarios()
 }
 
@@ -721,6 +766,95 @@ func vInitStoreScenarios() {
 			}
 		},
 		Judge: func(x *vSchedExec) [][3]string { return vStoreJudge(x, nil, vNoErr) }}, "C11", "C08")
+	// T6: an id whose document sits in a segment is (tried to be) removed and then added
+	// again while a compaction of the segments runs. Both segments were loaded (cached) by a
+	// search beforehand, so the compaction decodes nothing while the add runs. After the
+	// threads and the background work are done, the store's loaded index objects are probed
+	// for the re-added id BEFORE the final search (whose own decode of the merged segment is
+	// the known shared-template mechanism): an acknowledged re-add that is already gone at
+	// that point, without any segment having been decoded since it was called, and that the
+	// search then misses, was lost by something else.
+	both(&vScenario{Name: "store/T6-readd-compaction",
+		Body: func(x *vSchedExec) {
+			st, err := vStoreOpen(x, vStoreCfg{Mem: 2, Thr: 1, Comp: 2, Tmpl: "vtm", Vec: "flat"})
+			if err != nil {
+				panic(err)
+			}
+			vStoreAdd(x, st, "main", 1, 0)
+			st.memtableQueue.Rotate()
+			st.Flush()
+			vStoreAdd(x, st, "main", 2, 1)
+			st.memtableQueue.Rotate()
+			st.Flush()
+			vStoreSearchOp(x, st, "main") // loads both segments
+			x.Op("main", "RemoveFlushed", func() ([]uint32, error) { st.Remove(1); return nil, nil })
+			dec0 := vSegmentDecodes(x.fs)
+			x.Spawn("A", func() { vStoreAdd(x, st, "A", 1, 2) })
+			x.Spawn("B", func() {
+				x.Op("B", "TriggerCompaction", func() ([]uint32, error) { st.TriggerCompaction(); return nil, nil })
+			})
+			x.Join()
+			if !x.free {
+				vrt.Quiesce()
+			}
+			x.Op("main", "Probe", func() ([]uint32, error) {
+				var held []uint32
+				if vTemplatesHold(st, 1, 0) {
+					held = append(held, 1)
+				}
+				if vSegmentDecodes(x.fs) > dec0 {
+					held = append(held, 999) // marker: a segment was decoded since the add was called
+				}
+				return held, nil
+			})
+			vStoreSearchOp(x, st, "main")
+			if x.free {
+				st.Close()
+			}
+		},
+		Judge: func(x *vSchedExec) [][3]string {
+			var out [][3]string
+			addOK, held, decoded, probed := false, false, false, false
+			var last []uint32
+			for _, e := range x.events {
+				switch {
+				case e.Thread == "A" && strings.HasPrefix(e.Op, "Add("):
+					addOK = e.Err == ""
+					if e.Err != "" {
+						out = append(out, [3]string{"spurious-failure", "Add", e.Err})
+					}
+				case e.Op == "Probe":
+					probed = true
+					for _, id := range e.IDs {
+						if id == 1 {
+							held = true
+						}
+						if id == 999 {
+							decoded = true
+						}
+					}
+				case e.Op == "Search":
+					if e.Err != "" {
+						out = append(out, [3]string{"spurious-failure", "Search", e.Err})
+					}
+					last = e.IDs
+				}
+			}
+			found := false
+			for _, id := range last {
+				if id == 1 {
+					found = true
+				}
+			}
+			if addOK && probed && !found {
+				cause := "segment-decoded-into-shared-templates"
+				if !held && !decoded {
+					cause = "re-added-document-gone-although-no-segment-was-decoded-since-the-add"
+				}
+				out = append(out, [3]string{"search-missed-completed-add", cause, fmt.Sprintf("AddWithID(1) returned nil while a compaction ran; afterwards the loaded index objects hold id 1: %v, a segment was decoded since the add was called: %v; the final search returned %v", held, decoded, last)})
+			}
+			return out
+		}}, "C08")
 	// D1 / D2 (C09): the acknowledgement of Flush / Close under a concurrently running
 	// background flush. At the instant the call returns nil the directory is copied (the
 	// process could die right there); after the execution a store is opened on the copy
